@@ -44,6 +44,9 @@ def setup_path():
         sys.path.remove(SRC)
     sys.path.insert(0, SRC)
     import pyModeS
+    import warnings
+
+    warnings.simplefilter("ignore")  # pyModeS re-enables DeprecationWarning at import
 
     f = os.path.abspath(pyModeS.__file__)
     if not f.startswith(SRC + os.sep):
